@@ -227,11 +227,49 @@ func runC14(c *an.Ctx) {
 			for _, sc := range callsTo(drv, d.single) {
 				an.Instrs(drv, func(in ssa.Instruction) {
 					call, isCall := in.(*ssa.Call)
-					if !isCall || an.StaticFullName(&call.Call) != "errors.Is" {
+					if !isCall || len(call.Call.Args) == 0 {
 						return
 					}
 					// errors.Is on the result of the step, directly or through the field it was stored into
 					onStep := call.Call.Args[0] == ssa.Value(sc) || dt.Deref(call.Call.Args[0]) == ssa.Value(sc)
+					// the classification written as a predicate of the package (`if isAlreadyDeleted(err)`): the
+					// errors.Is tests it makes on its parameter are the classification
+					if cal := an.StaticCallee(&call.Call); cal != nil && cal.Blocks != nil && cal.Pkg == d.single.Pkg && len(cal.Params) == 1 && isErrorTyped(cal.Params[0]) {
+						viaField := false
+						if u, isU := call.Call.Args[0].(*ssa.UnOp); isU {
+							if fa, isFA := u.X.(*ssa.FieldAddr); isFA {
+								for _, ref := range *sc.Referrers() {
+									if sto, isSt := ref.(*ssa.Store); isSt {
+										if fb, isFB := sto.Addr.(*ssa.FieldAddr); isFB && fb.Field == fa.Field && fb.X == fa.X {
+											viaField = true
+										}
+									}
+								}
+							}
+						}
+						if onStep || viaField {
+							an.Instrs(cal, func(in2 ssa.Instruction) {
+								ic, ok := in2.(*ssa.Call)
+								if !ok || an.StaticFullName(&ic.Call) != "errors.Is" || ic.Call.Args[0] != ssa.Value(cal.Params[0]) {
+									return
+								}
+								nCls++
+								g := an.GlobalLoad(ic.Call.Args[1])
+								private := g != nil && g.Pkg == d.single.Pkg && !g.Object().Exported()
+								name := "?"
+								if g != nil {
+									name = g.Pkg.Pkg.Name() + "." + g.Name()
+								}
+								c.Check(private || !transparent, "C14.b", "handler-error-not-mistaken-for-missing:"+an.FuncName(drv),
+									"the error the drivers skip as 'header already missing' cannot be matched by a handler's (or a removal's) error: either the sentinel is private to package store, or the step does not wrap those errors transparently (%w)",
+									drv, call, "through "+an.FuncName(cal)+": tests for "+name+"; the step wraps foreign errors with %w: "+fmt.Sprint(transparent), nil)
+							})
+						}
+						return
+					}
+					if an.StaticFullName(&call.Call) != "errors.Is" {
+						return
+					}
 					if u, isU := call.Call.Args[0].(*ssa.UnOp); isU && !onStep {
 						if fa, isFA := u.X.(*ssa.FieldAddr); isFA {
 							for _, ref := range *sc.Referrers() {
@@ -295,7 +333,13 @@ func runC14(c *an.Ctx) {
 								switch x := rr.(type) {
 								case *ssa.Call:
 									okUse = okUse && an.StaticCallee(&x.Call) == d.single
-								case *ssa.MakeClosure, *ssa.Store, *ssa.DebugRef:
+								case *ssa.MakeClosure, *ssa.DebugRef:
+								case *ssa.Store:
+									// kept in a local of the deletion; a copy parked in a field or a global outlives
+									// the deletion and is handed out again after more handlers were registered
+									if _, isLocal := x.Addr.(*ssa.Alloc); !isLocal {
+										okUse = false
+									}
 								case *ssa.Return:
 									// a snapshot helper: fine when only the deletion drivers call it
 									sites := c.P.CG().Sites(fn)
@@ -327,6 +371,7 @@ func runC14(c *an.Ctx) {
 		c.Check(root == d.seq || root == d.par, "C14.c", "step-caller:"+an.FuncName(cs.Caller), "the per-height step (and with it the handlers) is called only by the sequential and the parallel deletion driver", cs.Caller, cs.Instr, "", nil)
 	}
 	checkDriverCoverage(c, "C14.c", d)
+	checkHandlersFromCurrentList(c, "C14.c", d.single, callers)
 
 	// --- C14.d no removal without handlers on the DeleteRange path
 	reach := reachableIn(c, []*ssa.Function{d.deleteRange}, true)
